@@ -26,5 +26,6 @@ theorem body_osExecCommand_SetStdout : Tea.Gen.fact_body_osExecCommand_SetStdout
 theorem body_osExecCommand_SetStderr : Tea.Gen.fact_body_osExecCommand_SetStderr = Tea.Doc.fact_body_osExecCommand_SetStderr := rfl
 theorem body_Program_suspend : Tea.Gen.fact_body_Program_suspend = Tea.Doc.fact_body_Program_suspend := rfl
 theorem el_case_SuspendMsg : Tea.Gen.fact_el_case_SuspendMsg = Tea.Doc.fact_el_case_SuspendMsg := rfl
+theorem methods_osExecCommand : Tea.Gen.fact_methods_osExecCommand = Tea.Doc.fact_methods_osExecCommand := rfl
 
 end Tea.Props.Bridge.C17
